@@ -15,6 +15,7 @@ static int why_kind;
 
 static cJSON *np[MAXN + 1];      /* id -> node of the concretised pre-state */
 static cJSON *bp[MAXN + 1];      /* id -> node binding while comparing a post-state */
+static cJSON raw_snap[MAXN + 1]; /* the raw structs before the call */
 static size_t NN;                /* number of node slots in the model */
 
 /* node tuple layout: [k, ref, ck, nx, pv, ch, key, vs, num, of, sib, isroot] */
@@ -270,12 +271,23 @@ static void tviol(const jv *act, int kind, const char *msg)
     vd_violation("%s: %s", a, msg);
 }
 
+static int jv_same(const jv *a, const jv *b)
+{
+    size_t k;
+    if (!a || !b) return a == b;
+    if (a->t != b->t || a->n != b->n) return 0;
+    if (a->t == JV_INT || a->t == JV_BOOL) return a->i == b->i;
+    if (a->t == JV_STR) return !strcmp(a->s, b->s);
+    for (k = 0; k < a->n; k++) if (!jv_same(a->e[k], b->e[k])) return 0;
+    return 1;
+}
 static int do_transition(const jv *line)
 {
     const jv *act = jv_at(line, 1), *pre = jv_at(line, 2), *outs = jv_at(line, 3);
     char why[512] = "", why1[512] = ""; cres r; size_t k; int ok = 0; size_t matched = 0; int kind1 = 1;
     case_begin();
     if (!concretise(pre, why, sizeof(why))) { fprintf(stderr, "vdrv: %s\n", why); return -1; }
+    { size_t i; for (i = 1; i <= NN; i++) if (np[i]) { raw_snap[i] = *np[i]; raw_snap[i].valueint = np[i]->valueint = (np[i]->type & 0xFF) == cJSON_Number ? np[i]->valueint : (int)(7 + i); raw_snap[i].valueint = np[i]->valueint; } }
     if (VD_TRY()) {
         al_in_call = 1;
         if (!run_call(act, &r, why, sizeof(why))) { al_in_call = 0; VD_END(); if (strstr(why, "unknown action") || strstr(why, "bad kind")) { fprintf(stderr, "vdrv: %s\n", why); return -1; } tviol(act, 1, why); return 0; }
@@ -294,6 +306,12 @@ static int do_transition(const jv *line)
             why_kind = 1;
             if (match_res(res, &r, why, sizeof(why)) && compare_state(post, why, sizeof(why))) { ok = 1; matched = k; }
             else if (k == 0) { memcpy(why1, why, sizeof(why1)); kind1 = why_kind; }
+        }
+        if (ok && jv_same(jv_at(outs->e[matched], 0), pre)) {
+            /* the model says the call changed nothing (refused argument, refused allocation request): then no node was touched at all, not even in the
+             * payload fields its type does not use (C08: no pre-existing tree is modified; C06: a refused call leaves every container unchanged) */
+            size_t i; for (i = 1; i <= NN; i++) if (np[i] && (raw_snap[i].type != np[i]->type || raw_snap[i].valueint != np[i]->valueint || memcmp(&raw_snap[i].valuedouble, &np[i]->valuedouble, sizeof(double)) != 0)) {      /* (pointers are covered by the state comparison: a key may legitimately be a fresh copy) */
+                ok = 0; kind1 = 1; snprintf(why1, sizeof(why1), "the call is specified to leave everything unchanged, but node %zu was written to (a field its type does not use: valueint %d -> %d, valuedouble %g -> %g)", i, raw_snap[i].valueint, np[i]->valueint, raw_snap[i].valuedouble, np[i]->valuedouble); break; }
         }
         if (ok) {
             /* epilogue (C07): releasing every caller-held root returns the allocator to balance */
